@@ -1,9 +1,380 @@
 import ShpanVerif.Util.Parse
-/- Driver handler for C17 (stub: replaced when the property's model lands). -/
+import ShpanVerif.Model.Derive
+import ShpanVerif.Model.RowAlias
+/-
+Driver handler for C17 (case formats: see harness/run/c17.go).
+
+  D r<root> <derivations> | <order> ; <order> ...
+      model : `Derive.runD` over the slice heap (growth oracle: Go-like doubling), then read every stream value's
+              lifecycle slice from the final heap
+      spec  : every stream opens/closes exactly the ids of its own derivation path (computed by following the
+              parent pointers, no heap) and delivers its path's elements
+
+  Q <lay> n= w= caps=k:m,... <mode> | P | Q | post
+      model : `RowAlias.stepR` operations on a heap built with the given spare capacities / layout
+      spec  : a table-level evaluator (lists only), the same for every capacity, and the caller-data bit must be 1
+-/
 namespace ShpanVerif.Drive.C17
+open ShpanVerif.Util ShpanVerif.Model.Slice ShpanVerif.Model.Derive ShpanVerif.Model.RowAlias
+
+def dropFirst (s : String) (n : Nat) : String := String.ofList (s.toList.drop n)
+
+def stripPrefix? (s p : String) : Option String :=
+  if s.startsWith p then some (dropFirst s p.length) else none
+
+/-! ### D cases -/
+
+structure DCase where
+  root : Char
+  ds : List (Nat × Char)
+  ords : List (List Nat)
+
+def parseDeriv (t : String) : Option (Nat × Char) :=
+  let cs := t.toList
+  match cs.getLast? with
+  | none => none
+  | some k => do
+    let p ← (String.ofList cs.dropLast).toNat?
+    if "WKFMLSP".toList.contains k then pure (p, k) else none
+
+def parseDerivs (s : String) : Option (List (Nat × Char)) :=
+  if s == "-" then some [] else (s.splitOn ",").mapM parseDeriv
+
+def parseD (text : String) : Option DCase :=
+  match text.splitOn " | " with
+  | [head, ordText] =>
+    match words head with
+    | [r, d] => do
+      let root ← (match r.toList with | ['r', c] => some c | _ => none)
+      let ds ← parseDerivs d
+      let ords ← ((ordText.splitOn " ; ").map String.trimAscii |>.map (·.toString) |>.filter (· != "")).mapM parseNatList
+      pure { root := root, ds := ds, ords := ords }
+    | _ => none
+  | _ => none
+
+def kindOf (j : Nat) (k : Char) : Kind :=
+  match k with
+  | 'W' => .withLifecycle j
+  | 'K' => .withLock j
+  | 'F' => .share .filterEven
+  | 'M' => .share .mapAdd10
+  | 'L' => .share .limit2
+  | 'S' => .share .skip1
+  | _ => .share .peek
+
+def rootIds (root : Char) : List Nat := if root == '0' then [] else [0]
+
+/-- run the derivation program; the growth oracle doubles (Go's policy for short slices): new cap = 2·len. -/
+def runModelD (c : DCase) : DState :=
+  let st0 := initState [(rootIds c.root, 0)]
+  (c.ds.foldl (fun (acc : DState × Nat) d =>
+    let plen := (acc.1.streams.getD d.1 { prov := [], lc := nilSlice }).lc.len
+    (derive acc.1 { parent := d.1, kind := kindOf acc.2 d.2, grow := plen - 1 }, acc.2 + 1)) (st0, 1)).1
+
+def srcData : List Int := [0, 1, 2, 3]
+
+def fmtInts (l : List Int) : String := fmtList toString l
+
+def fmtD (c : DCase) (lc : Nat → List Nat) (data : Nat → List Int) : String :=
+  let n := c.ds.length + 1
+  let solo := (List.range n).map (fun i => s!"{i}:{fmtNatList (lc i)}/{fmtNatList (lc i)}/{fmtInts (data i)}")
+  let alls := c.ords.map (fun ord =>
+    " ; all " ++ " ".intercalate (ord.map (fun i => s!"{i}:{fmtNatList (lc i)}/{fmtNatList (lc i)}")))
+  "solo " ++ " ".intercalate solo ++ String.join alls
+
+/-- list-level spec: follow the parent pointers (fuel = index bound). -/
+def pathIds (c : DCase) : Nat → Nat → List Nat
+  | 0, _ => rootIds c.root
+  | fuel + 1, i =>
+    if i == 0 then rootIds c.root else
+    match c.ds[i - 1]? with
+    | none => []
+    | some (p, k) => pathIds c fuel p ++ (if k == 'W' || k == 'K' then [i] else [])
+
+def dataOpOf (k : Char) : List Int → List Int :=
+  match k with
+  | 'F' => fun l => l.filter (fun v => v % 2 == 0)
+  | 'M' => fun l => l.map (· + 10)
+  | 'L' => fun l => l.take 2
+  | 'S' => fun l => l.drop 1
+  | _ => id
+
+def pathData (c : DCase) : Nat → Nat → List Int
+  | 0, _ => srcData
+  | fuel + 1, i =>
+    if i == 0 then srcData else
+    match c.ds[i - 1]? with
+    | none => []
+    | some (p, k) => dataOpOf k (pathData c fuel p)
+
+def handleD (text obs : String) : String × Bool × String :=
+  match parseD text with
+  | none => ("bad-case", false, "unparsable case")
+  | some c =>
+    let st := runModelD c
+    let model := fmtD c
+      (fun i => match st.streams[i]? with | some s => (materialise st.heap s).1 | none => [])
+      (fun i => match st.streams[i]? with | some s => dataOf srcData s.prov | none => [])
+    let n := c.ds.length + 1
+    let want := fmtD c (pathIds c n) (pathData c n)
+    (model, obs == want, if obs == want then "" else s!"a stream does not run its own derivation path; want {want}")
+
+/-! ### Q cases -/
+
+structure CVal where
+  ref : Bool
+  n : Int
+
+structure CStage where
+  kind : Char
+  vals : List CVal
+
+def parseCVal (s : String) : Option CVal :=
+  match s.toList with
+  | 'c' :: rest => (String.ofList rest).toInt?.map (fun n => { ref := false, n := n })
+  | 'r' :: rest => (String.ofList rest).toNat?.map (fun n => { ref := true, n := n })
+  | _ => none
+
+def parseStage (t : String) : Option CStage :=
+  match t.toList with
+  | ['D'] => some { kind := 'D', vals := [] }
+  | 'A' :: rest => (parseCVal (String.ofList rest)).map (fun v => { kind := 'A', vals := [v] })
+  | 'S' :: rest => ((String.ofList rest).splitOn "+").mapM parseCVal |>.map (fun vs => { kind := 'S', vals := vs })
+  | _ => none
+
+def parseChain (s : String) : Option (List CStage) :=
+  let s := s.trimAscii.toString
+  if s == "-" then some [] else (s.splitOn ".").mapM parseStage
+
+structure QCase where
+  lay : String
+  n : Nat
+  w : Nat
+  caps : List (Nat × Nat)
+  mode : String
+  p : List CStage
+  q : List CStage
+  post : List CStage
+
+def parseCap (s : String) : Option (Nat × Nat) :=
+  match s.splitOn ":" with
+  | [a, b] => do pure ((← a.toNat?), (← b.toNat?))
+  | _ => none
+
+def parseQ (text : String) : Option QCase :=
+  match text.splitOn " | " with
+  | [head, p, q, post] =>
+    match words head with
+    | [lay, n, w, caps, mode] => do
+      let n ← (← stripPrefix? n "n=").toNat?
+      let w ← (← stripPrefix? w "w=").toNat?
+      let caps ← ((← stripPrefix? caps "caps=").splitOn ",").mapM parseCap
+      pure { lay := lay, n := n, w := w, caps := caps, mode := mode,
+             p := (← parseChain p), q := (← parseChain q), post := (← parseChain post) }
+    | _ => none
+  | _ => none
+
+/-- urn ids: source field j ↦ j, spare sentinel j ↦ -(1+j), new field of pipeline `tag` ↦ base + 10·stage (+ 1 + field). -/
+def tagBase (tag : String) : Int := if tag == "p" then 1000 else if tag == "q" then 2000 else 3000
+
+def urnName (v : Int) : String :=
+  if v < 0 then s!"zz{-v - 1}"
+  else if v < 1000 then s!"s{v}"
+  else
+    let tag := if v < 2000 then "p" else if v < 3000 then "q" else "j"
+    let r := v % 1000
+    if r % 10 == 0 then s!"{tag}{r / 10}" else s!"{tag}{r / 10}_{r % 10 - 1}"
+
+def rangeI (n : Nat) : List Int := (List.range n).map Int.ofNat
+
+def fmtVal : Val → String
+  | .nil => "n"
+  | .int i => toString i
+
+def fmtRow (r : Nat × List Val) : String := s!"{r.1}:{fmtList fmtVal r.2}"
+
+def fmtRows (rows : List (Nat × List Val)) : String :=
+  if rows.isEmpty then "-" else ";".intercalate (rows.map fmtRow)
+
+def fmtUrns (m : List Val) : String :=
+  fmtList (fun v => match v with | .int i => urnName i | .nil => "?") m
+
+def toValFn (v : CVal) : ValFn := if v.ref then .ref v.n.toNat else .const (.int v.n)
+
+def srcRow (w i : Nat) : List Val := (rangeI w).map (fun j => Val.int (100 * i + j + 1))
+
+/-! #### table-level specification (no heap) -/
+
+structure Tbl where
+  urns : List Val
+  rows : List (Nat × List Val)
+
+def specStageT (tag : String) (si : Nat) (t : Tbl) (st : CStage) : Tbl :=
+  match st.kind with
+  | 'D' => { t with rows := t.rows.filter (fun r => r.1 % 2 == 0) }
+  | 'A' =>
+    match st.vals with
+    | v :: _ =>
+      { urns := t.urns ++ [.int (tagBase tag + 10 * si)],
+        rows := t.rows.map (fun r => (r.1, r.2 ++ [(toValFn v).eval r.2])) }
+    | [] => t
+  | _ =>
+    { urns := (rangeI st.vals.length).map (fun j => Val.int (tagBase tag + 10 * si + 1 + j)),
+      rows := t.rows.map (fun r => (r.1, specSelect r.2 (st.vals.map toValFn))) }
+
+def specChainT (tag : String) (t : Tbl) (chain : List CStage) : Tbl :=
+  (chain.foldl (fun (acc : Tbl × Nat) st => (specStageT tag acc.2 acc.1 st, acc.2 + 1)) (t, 0)).1
+
+def nils (n : Nat) : List Val := List.replicate n Val.nil
+
+def specJoinT (mode : String) (n : Nat) (a b : Tbl) : Tbl :=
+  let wa := a.urns.length
+  let wb := b.urns.length
+  let rows := (List.range n).filterMap (fun ts =>
+    match a.rows.lookup ts, b.rows.lookup ts with
+    | some ra, some rb => some (ts, ra ++ rb)
+    | some ra, none => if mode == "joinI" then none else some (ts, ra ++ nils wb)
+    | none, some rb => if mode == "joinF" then some (ts, nils wa ++ rb) else none
+    | none, none => none)
+  { urns := a.urns ++ b.urns, rows := rows }
+
+def isJoin (mode : String) : Bool := mode.startsWith "join"
+def joinKind (mode : String) : String := if mode == "joinsharedI" then "joinI" else mode
+
+def specPayload (c : QCase) : String :=
+  let src : Tbl := { urns := (rangeI c.w).map (fun j => Val.int j),
+                     rows := (List.range c.n).map (fun i => (i, srcRow c.w i)) }
+  let tp := specChainT "p" src c.p
+  let tq := specChainT "q" src c.q
+  if isJoin c.mode then
+    let tj := specChainT "j" (specJoinT (joinKind c.mode) c.n tp tq) c.post
+    s!"J={fmtRows tj.rows} mJ={fmtUrns tj.urns} u=1"
+  else
+    s!"P={fmtRows tp.rows} mP={fmtUrns tp.urns} Q={fmtRows tq.rows} mQ={fmtUrns tq.urns} u=1"
+
+/-! #### the heap model -/
+
+/-- A result in flight: metadata register, (timestamp, row register) list, row width. -/
+structure HTbl where
+  md : Nat
+  rows : List (Nat × Nat)
+  width : Nat
+
+def emit (s : RState) (op : ROp) : RState × Nat := (stepR s op, s.regs.length)
+
+/-- growth-oracle choices: vary with the program position so that in-place and allocating paths both occur. -/
+def growOf (s : RState) : Nat := s.regs.length % 3
+def growsOf (s : RState) : List Nat :=
+  let g := s.regs.length
+  [g % 3, (g + 1) % 3, (g + 2) % 3, g % 2, (g + 1) % 2, g % 3, 0, 1]
+
+def mapRows (s : RState) (rows : List (Nat × Nat)) (f : RState → Nat → ROp) : RState × List (Nat × Nat) :=
+  rows.foldl (fun (acc : RState × List (Nat × Nat)) r =>
+    let e := emit acc.1 (f acc.1 r.2)
+    (e.1, acc.2 ++ [(r.1, e.2)])) (s, [])
+
+def stageH (tag : String) (si : Nat) (s : RState) (t : HTbl) (st : CStage) : RState × HTbl :=
+  match st.kind with
+  | 'D' => (s, { t with rows := t.rows.filter (fun r => r.1 % 2 == 0) })
+  | 'A' =>
+    match st.vals with
+    | v :: _ =>
+      let m := emit s (.appendMeta t.md (.int (tagBase tag + 10 * si)) (growOf s))
+      let rs := mapRows m.1 t.rows (fun s r => .appendRow r (toValFn v) (growOf s))
+      (rs.1, { md := m.2, rows := rs.2, width := t.width + 1 })
+    | [] => (s, t)
+  | _ =>
+    let urns := (rangeI st.vals.length).map (fun j => Val.int (tagBase tag + 10 * si + 1 + j))
+    let m := emit s (.selectMeta t.md urns (growsOf s))
+    let rs := mapRows m.1 t.rows (fun s r => .selectRow r (st.vals.map toValFn) (growsOf s))
+    (rs.1, { md := m.2, rows := rs.2, width := st.vals.length })
+
+def chainH (tag : String) (s : RState) (t : HTbl) (chain : List CStage) : RState × HTbl :=
+  let r := chain.foldl (fun (acc : (RState × HTbl) × Nat) st => (stageH tag acc.2 acc.1.1 acc.1.2 st, acc.2 + 1)) ((s, t), 0)
+  r.1
+
+def joinH (mode : String) (n : Nat) (s : RState) (a b : HTbl) : RState × HTbl :=
+  let m := emit s (.concatJoin [(some a.md, a.width), (some b.md, b.width)] (growsOf s))
+  let rs := (List.range n).foldl (fun (acc : RState × List (Nat × Nat)) ts =>
+    let s := acc.1
+    match a.rows.lookup ts, b.rows.lookup ts with
+    | some ra, some rb =>
+      let e := if mode == "joinL" then emit s (.leftJoin ra [(some rb, b.width)] (growsOf s))
+               else emit s (.concatJoin [(some ra, a.width), (some rb, b.width)] (growsOf s))
+      (e.1, acc.2 ++ [(ts, e.2)])
+    | some ra, none =>
+      if mode == "joinI" then acc else
+      let e := if mode == "joinL" then emit s (.leftJoin ra [(none, b.width)] (growsOf s))
+               else emit s (.concatJoin [(some ra, a.width), (none, b.width)] (growsOf s))
+      (e.1, acc.2 ++ [(ts, e.2)])
+    | none, some rb =>
+      if mode == "joinF" then
+        let e := emit s (.concatJoin [(none, a.width), (some rb, b.width)] (growsOf s))
+        (e.1, acc.2 ++ [(ts, e.2)])
+      else acc
+    | none, none => acc) (m.1, [])
+  (rs.1, { md := m.2, rows := rs.2, width := a.width + b.width })
+
+def sentinels (k : Nat) : List Val := (rangeI k).map (fun j => Val.int (-1000 - j))
+
+/-- the caller's data: row registers 0..n-1, metadata register n. -/
+def initR (c : QCase) (k m : Nat) : RState :=
+  let metaArr : List Val := (rangeI c.w).map (fun j => Val.int j) ++ (rangeI m).map (fun j => Val.int (-1 - j))
+  if c.lay == "pack" then
+    let big := ((List.range c.n).map (srcRow c.w)).flatten ++ sentinels k
+    { heap := [big, metaArr],
+      regs := (List.range c.n).map (fun i => ({ arr := 0, off := i * c.w, len := c.w, cap := (c.n - i) * c.w + k } : Slice))
+              ++ [{ arr := 1, off := 0, len := c.w, cap := c.w + m }] }
+  else
+    { heap := (List.range c.n).map (fun i => srcRow c.w i ++ sentinels k) ++ [metaArr],
+      regs := (List.range c.n).map (fun i => ({ arr := i, off := 0, len := c.w, cap := c.w + k } : Slice))
+              ++ [{ arr := c.n, off := 0, len := c.w, cap := c.w + m }] }
+
+def readRows (s : RState) (rows : List (Nat × Nat)) : List (Nat × List Val) :=
+  rows.map (fun r => (r.1, s.vals.getD r.2 []))
+
+def modelPayload (c : QCase) (k m : Nat) : String :=
+  let s0 := initR c k m
+  let src : HTbl := { md := c.n, rows := (List.range c.n).map (fun i => (i, i)), width := c.w }
+  let (s1, tp) := chainH "p" s0 src c.p
+  let (s2, tq) := chainH "q" s1 src c.q
+  if isJoin c.mode then
+    let (s3, tj0) := joinH (joinKind c.mode) c.n s2 tp tq
+    let (s4, tj) := chainH "j" s3 tj0 c.post
+    let u := s4.heap.take s0.heap.length == s0.heap
+    s!"J={fmtRows (readRows s4 tj.rows)} mJ={fmtUrns (s4.vals.getD tj.md [])} u={boolStr u}"
+  else
+    let u := s2.heap.take s0.heap.length == s0.heap
+    s!"P={fmtRows (readRows s2 tp.rows)} mP={fmtUrns (s2.vals.getD tp.md [])} Q={fmtRows (readRows s2 tq.rows)} mQ={fmtUrns (s2.vals.getD tq.md [])} u={boolStr u}"
+
+def handleQ (text obs : String) : String × Bool × String :=
+  match parseQ text with
+  | none => ("bad-case", false, "unparsable case")
+  | some c =>
+    let model := " ".intercalate (c.caps.map (fun km => s!"[{km.1}:{km.2} {modelPayload c km.1 km.2}]"))
+    let sp := specPayload c
+    let want := " ".intercalate (c.caps.map (fun km => s!"[{km.1}:{km.2} {sp}]"))
+    if obs == want then (model, true, "")
+    else
+      -- classify: which clause of the property fails
+      let got := (obs.splitOn "] [")
+      let wants := (want.splitOn "] [")
+      let bad := (got.zip wants).filter (fun gw => gw.1 != gw.2)
+      let someOk := bad.length < wants.length && got.length == wants.length
+      let mutated := (obs.splitOn "u=0").length > 1
+      let why := (if mutated then "caller data modified; " else "") ++
+        (if someOk then "result depends on the spare capacity; " else "") ++
+        (match bad.head? with | some gw => s!"first bad combo got `{gw.1}` want `{gw.2}`" | none => s!"want {want}")
+      let kf := if c.mode == "joinshared" ++ "I" then "KF:F6 one datasource object materialised by both join sides (shared cursor); " else ""
+      (model, false, kf ++ why)
 
 /-- returns (model output, spec verdict on the observation, reason) -/
-def handle (_c _obs : String) : String × Bool × String :=
-  ("unimplemented", false, "no model yet")
+def handle (c obs : String) : String × Bool × String :=
+  match stripPrefix? c "D " with
+  | some t => handleD t obs
+  | none =>
+    match stripPrefix? c "Q " with
+    | some t => handleQ t obs
+    | none => ("bad-case", false, "unknown case kind")
 
 end ShpanVerif.Drive.C17
